@@ -310,8 +310,11 @@ def prove(ctx: Ctx, pid: str, extra_targets: list[str] | None = None, gen_info: 
                 ctx.notes["driver_fallback_ok"] = ok2
                 if ok2:
                     import shutil
-                    fb = LEAN / ".lake" / "build" / "bin" / "svdriver.ref"
+                    # one copy per process: another check may be executing its own fallback binary right now (ETXTBSY on overwrite)
+                    fb = LEAN / ".lake" / "build" / "bin" / f"svdriver.ref.{os.getpid()}"
                     shutil.copy2(DRIVER, fb)
+                    import atexit
+                    atexit.register(lambda p=fb: p.unlink(missing_ok=True))
                     global DRIVER_OVERRIDE
                     DRIVER_OVERRIDE = fb
             finally:
